@@ -220,9 +220,10 @@ RdField(b, p, lim, bend, acc) ==
    ELSE LET L == V(b, p) IN
    IF L = 0 THEN Res("R", p, "name-length-zero", NoVal)
    ELSE IF ~Fits(L, p+4, lim, bend) THEN Fail(L, p+4, lim, bend, "name-overruns")
-   ELSE IF b[p+4+L] # 0 /\ "no_nul_check" \notin Wrong THEN Res("R", p, "name-without-nul", NoVal)
+   ELSE IF ~HasNul(Bytes(b, p+4, L)) /\ "no_nul_check" \notin Wrong THEN Res("R", p, "name-without-nul", NoVal)
    ELSE LET name == Bytes(b, p+4, L-1)  q == p+4+L IN
-   IF HasNul(name) THEN Res("E", p, "name-with-embedded-nul", NoVal)
+   \* a NUL before the last of the L bytes: String::Unflatten takes the prefix, MMUnflattenMessage wants the NUL at the end
+   IF HasNul(name) \/ b[p+4+L] # 0 THEN Res("E", p, "name-with-nul-before-its-end", NoVal)
    ELSE IF \E g \in 1..Len(acc) : acc[g].name = name THEN Res("E", p, "duplicate-field-name", NoVal)
    ELSE IF ~Fits(8, q, lim, bend) THEN Fail(8, q, lim, bend, "type-or-data-length-word-missing")
    ELSE LET tc == V(b, q)  P == V(b, q+4)  d == q+8
@@ -417,10 +418,11 @@ ReEnc(enc, val) == CASE enc = "msg" -> EncMsg(val) [] enc = "tmpl" -> EncT(val) 
 
 LenKinds == {"namelen", "paylen", "itemlen", "msglen", "framelen", "chunklen", "totallen"}
 Nat31(S) == {x \in S : x >= 0 /\ x < HUGE}
+Near(n) == Nat31({n - 1, n}) \cup (IF n < HUGE - 1 THEN {n + 1} ELSE {})
 Vals(wd) ==
-   {W(x) : x \in Nat31({0, 1, wd.n - 1, wd.n, wd.n + 1})}
+   {W(x) : x \in {0, 1} \cup Near(wd.n)}
    \cup {<<255, 255, 255, 127>>, <<0, 0, 0, 128>>} \cup {<<248 + i, 255, 255, 255>> : i \in 0..7}
-   \cup (IF wd.k \in LenKinds \cup {"count", "nfields", "fragoff"} THEN {W(x) : x \in Nat31({wd.e - 1, wd.e, wd.e + 1})} ELSE {})
+   \cup (IF wd.k \in LenKinds \cup {"count", "nfields", "fragoff"} THEN {W(x) : x \in Near(wd.e)} ELSE {})
    \* sizes that do not overflow 32-bit arithmetic when multiplied by a small item size, but are far beyond the buffer
    \cup (IF wd.k \in LenKinds \cup {"count", "nfields"} THEN {W(65535), W(16777216), W(268435455), W(268435456), W(536870911), W(1073741823)} ELSE {})
    \cup (IF wd.k = "type" THEN {W(TC[t]) : t \in DOMAIN TC} ELSE {})
@@ -512,27 +514,35 @@ AcceptDerivable == mu.v = "A" => (mu.rt /\ mu.same)
 MutationApplied == (mu.k = "word" => (Unchanged <=> mu.w = W(mu.n))) /\ (mu.k \in {"trunc", "splice"} => ~Unchanged)
 UnchangedAccepted == (Unchanged /\ mu.canon) => mu.v = "A"
 
-(* every truncation of a valid encoding cuts inside a length-prefixed node (the outermost node is closed by the field count):
-   the bytes the words declare are not in the buffer *)
+(* every truncation of a valid encoding cuts inside a length-prefixed node (the outermost node is closed by the field count): it is
+   never derivable, and the bytes the words declare are not in the buffer - except that a reader which clamps a field's data length
+   to what is left (Message::Unflatten does) can still take a cut that falls inside the data of a fixed-size or Message field *)
+ClampWhy == {"zero-items", "data-length-not-a-multiple-of-the-item-size", "data-length-clamped-to-the-enclosing-node"}
 TruncationRejected == (mu.k = "trunc" /\ mu.canon) =>
-   CASE mu.enc \in {"msg", "tmpl"} -> mu.v = "R"
-     [] mu.enc = "frame"           -> mu.v = "I"
-     [] mu.enc = "tun"             -> mu.v = "R" \/ (mu.v = "E" /\ mu.pos >= 24)      \* a whole fragment may precede the cut
-     [] mu.enc = "mtun"            -> mu.v = "R" \/ (mu.v = "E" /\ mu.pos >= 12)
+   /\ mu.v # "A"
+   /\ CASE mu.enc = "msg"   -> mu.v = "R" \/ (mu.v = "E" /\ mu.why \in ClampWhy)
+        [] mu.enc = "tmpl"  -> mu.v = "R"
+        [] mu.enc = "frame" -> mu.v = "I"
+        [] mu.enc = "tun"   -> mu.v = "R" \/ (mu.v = "E" /\ mu.pos >= 24)      \* a whole fragment may precede the cut
+        [] mu.enc = "mtun"  -> mu.v = "R" \/ (mu.v = "E" /\ mu.pos >= 12)
+(* a cut inside a word, a name, a string / raw item or a count is MustReject whatever the reader clamps *)
+TruncationInsideVariablePartRejected == (mu.k = "trunc" /\ mu.canon /\ mu.enc = "msg") =>
+   LET map == BaseOf("msg", mu.base).map IN
+   (\E j \in 1..Len(map) : /\ mu.pos > map[j].off /\ mu.pos < map[j].off + 4) => mu.v = "R"
 
 (* a length or count that asks for more than its node holds is never accepted; beyond the buffer it is MustReject *)
 OverrunRejected == (mu.k = "word" /\ IsMsgLike /\ mu.canon /\ mu.wk \in {"namelen", "itemlen", "msglen", "count", "nfields"}) =>
    LET v == V(mu.w, 0) IN
    /\ (mu.wk \in {"namelen", "itemlen", "msglen"} /\ v > mu.e) => mu.v \in {"R", "RB"}
-   /\ (mu.wk \in {"namelen", "itemlen", "msglen"} /\ v > mu.e /\ mu.d = 0 /\ mu.enc # "frame") => mu.v = "R"
+   /\ (mu.wk \in {"namelen", "itemlen", "msglen"} /\ v > Len(mu.b) - (mu.pos + 4) /\ mu.enc # "frame") => mu.v = "R"
    /\ (mu.wk \in {"count", "nfields"} /\ v > mu.n) => mu.v \in {"R", "RB"}
 DataLengthNeverAccepted == (mu.k = "word" /\ IsMsgLike /\ mu.canon /\ mu.wk = "paylen" /\ V(mu.w, 0) # mu.n) => mu.v # "A"
 HugeNeverAccepted == (mu.k = "word" /\ IsMsgLike /\ mu.wk \in LenKinds \cup {"count", "nfields"} /\ V(mu.w, 0) >= 65535) => mu.v # "A"
 
 (* a nested length that disagrees with its parent is never accepted; if only the child grew, a reader with a budget rejects *)
 SpliceDisagrees == (mu.k = "splice" /\ IsMsgLike /\ mu.canon) =>
-   /\ mu.v # "A"
-   /\ (mu.sp = "ins" /\ mu.wk \in {"itemlen", "msglen"} /\ mu.enc = "msg") => mu.v \in {"R", "RB"}
+   /\ mu.v = "A" => (mu.sp = "ins" /\ mu.d = 0 /\ (mu.wk = "paylen" \/ mu.enc = "tmpl"))     \* a node whose only parent is the buffer (the data of a top-level field; a top-level item of the payload-only encoding): growing it consistently is a valid encoding
+   /\ (mu.sp = "ins" /\ mu.wk \in {"itemlen", "msglen"} /\ mu.enc = "msg" /\ mu.e = mu.n) => mu.v \in {"R", "RB"}    \* the last child now ends one byte after its parent
 
 (* documented constants *)
 VersionChecked == (mu.k = "word" /\ mu.wk = "ver" /\ ~Unchanged) => mu.v = "R"
